@@ -232,7 +232,9 @@ def check(ctx):
     if to_list is None:
         run.error('C19.every-line', tg.name, 'Indentizer.to_list', 'to_list', 'Indentizer.to_list vanished')
     else:
-        _all_branch(ctx, to_list)
+        from .shared import to_list_views
+        view_all = to_list_views(ctx).get('ALL')
+        _all_branch(ctx, view_all if view_all is not None else to_list)
 
     # ---- C19.every-line (c): the bullet prefix starts with the glyph --------------------------------------------------------------
     post = ind.methods.get('__post_init__')
@@ -274,6 +276,11 @@ def check(ctx):
                     if isinstance(a, ast.Name):
                         d = _resolve(ctx, sfn, a)
                         inside += [c for c in indents if d is not None and any(x is c for x in ast.walk(d))]
+            if not inside and _renders_indented_lines(ctx, sfn, r):
+                run.holds('C19.every-line', cg_mod, 'Comment.__str__', r,
+                          'the rendered text joins the lines that the installed `//` indentizer produces (to_list of the line buffer)',
+                          node=r)
+                continue
             ok = bool(inside) and all(not c.args and not c.keywords for c in inside)
             run.add('C19.every-line', cg_mod, 'Comment.__str__', r, ok,
                     'the rendered text is the `//`-indented copy' if ok else
@@ -453,6 +460,36 @@ def _field_default(ctx, cls: ClassInfo, name: str) -> Optional[str]:
     return d.value if isinstance(d, ast.Constant) and isinstance(d.value, str) else None
 
 
+def _renders_indented_lines(ctx, fn: FuncInfo, r: ast.Return) -> bool:
+    """`return EOL.join(X) + EOL` (or the empty string for no lines) where X is `self._indentizer.to_list(<own line buffer>)`,
+    possibly through a local and through a method of the class (or a base class) that returns exactly that."""
+    from .c18 import join_shape, const_str
+    prog = ctx.prog
+    if const_str(ctx, fn, r.value) == '':
+        return bool(ctx.flow.path_conditions(r))          # the empty-comment case of a guarded join
+    sh = join_shape(ctx, fn, r.value)
+    if sh is None or sh[1] != '\n' or sh[2] != '\n':
+        return False
+
+    def is_indented(e: ast.expr, f: FuncInfo, depth: int = 0) -> bool:
+        if depth > 4:
+            return False
+        if isinstance(e, ast.Name):
+            sites = ctx.cg.env(f)._assign_sites.get(e.id, [])
+            return len(sites) == 1 and sites[0][0] == 'expr' and is_indented(sites[0][1], f, depth + 1)
+        if isinstance(e, ast.Call) and isinstance(e.func, ast.Attribute):
+            if e.func.attr == 'to_list' and ast.unparse(e.func.value) == 'self._indentizer' and len(e.args) == 1 and \
+                    ast.unparse(e.args[0]) in ('self._lines', 'self.lines'):
+                return True
+            if isinstance(e.func.value, ast.Name) and e.func.value.id == 'self' and not e.args and f.cls is not None:
+                m = prog.lookup_method(f.cls, e.func.attr)
+                if m is not None:
+                    rets = [x for x in iter_own_nodes(m.node) if isinstance(x, ast.Return)]
+                    return len(rets) == 1 and rets[0].value is not None and is_indented(rets[0].value, m, depth + 1)
+        return False
+    return is_indented(sh[0], fn)
+
+
 def _all_branch(ctx, to_list: FuncInfo):
     run = ctx.run
     mod = to_list.module.name
@@ -467,28 +504,22 @@ def _all_branch(ctx, to_list: FuncInfo):
     def facts(n):
         return [(ast.unparse(c), p) for c, p in atomic_facts(ctx.flow.path_conditions(n))]
 
-    def is_all(txt: str) -> bool:
-        return txt.replace(' ', '').endswith('mode==BulletListMode.ALL') or txt.replace(' ', '').endswith('modeisBulletListMode.ALL')
-
-    all_rets = [r for r in rets if any(is_all(t) and p for t, p in facts(r))]
-    if not all_rets:
-        run.add('C19.every-line', mod, to_list.qualname, 'branch for BulletListMode.ALL', False,
-                'no rendering branch is selected by mode == BulletListMode.ALL')
-        return
+    # `to_list` is the view of Indentizer.to_list for bullet mode ALL (rules.shared.to_list_views): the branch on the mode is
+    # folded away, every return that can be reached with lines to render must render every line with the bullet prefix
+    n_map = 0
     for r in rets:
         f = facts(r)
-        if r in all_rets:
-            # must also require the bullet list to be configured - nothing else
-            extra = [(t, p) for t, p in f if not is_all(t) and t not in ('self.bullet_list', f'not {L}', L)]
-            ok, why = _every_line_map(ctx, to_list, r.value, L)
-            if extra:
-                ok, why = False, f'the ALL branch additionally depends on {extra[0][0]!r}'
-            run.add('C19.every-line', mod, to_list.qualname, r, ok, why, node=r)
-        else:
-            excluded = any((is_all(t) and not p) or (t == L and not p) or (t == 'self.bullet_list' and not p) for t, p in f)
-            run.add('C19.every-line', mod, to_list.qualname, r, excluded,
-                    'not reachable in bullet mode ALL with lines to render' if excluded else
-                    'this return can pre-empt the ALL branch: lines are rendered without the bullet prefix', node=r)
+        if any((t == L and not p) or (t == f'not {L}' and p) for t, p in f):
+            ok = isinstance(r.value, (ast.List, ast.Tuple)) and not r.value.elts
+            run.add('C19.every-line', mod, to_list.qualname, r, ok,
+                    'no lines, nothing to render' if ok else 'something is rendered for an empty comment', node=r)
+            continue
+        n_map += 1
+        ok, why = _every_line_map(ctx, to_list, r.value, L)
+        run.add('C19.every-line', mod, to_list.qualname, r, ok, why, node=r)
+    if n_map == 0:
+        run.add('C19.every-line', mod, to_list.qualname, 'rendering in BulletListMode.ALL', False,
+                'no return renders the lines when the bullet mode is ALL')
 
 
 def _every_line_map(ctx, fn: FuncInfo, e: ast.AST, src: str) -> Tuple[bool, str]:
@@ -525,6 +556,28 @@ def _every_line_map(ctx, fn: FuncInfo, e: ast.AST, src: str) -> Tuple[bool, str]
         if not any(isinstance(x, ast.FormattedValue) and isinstance(x.value, ast.Name) and x.value.id == v for x in vals[1:]):
             return False, 'the rendered line does not carry the original line text'
         return True, 'every line of the whole list is rendered as bullet prefix + line'
+    if isinstance(e, ast.BinOp) and isinstance(e.op, ast.Add) and isinstance(e.left, ast.List) and len(e.left.elts) == 1 and \
+            isinstance(e.right, ast.ListComp):
+        # `first, *rest = src` ; [f(first)] + [f(x) for x in rest]
+        unpacks = [a_ for a_ in iter_own_nodes(fn.node) if isinstance(a_, ast.Assign) and len(a_.targets) == 1 and
+                   isinstance(a_.targets[0], (ast.Tuple, ast.List)) and len(a_.targets[0].elts) == 2 and
+                   isinstance(a_.targets[0].elts[0], ast.Name) and isinstance(a_.targets[0].elts[1], ast.Starred) and
+                   isinstance(a_.targets[0].elts[1].value, ast.Name) and isinstance(a_.value, ast.Name) and a_.value.id == src]
+        if len(unpacks) == 1:
+            first, rest = unpacks[0].targets[0].elts[0].id, unpacks[0].targets[0].elts[1].value.id
+            head = ast.ListComp(elt=e.left.elts[0], generators=[ast.comprehension(
+                target=ast.Name(id=first, ctx=ast.Store()), iter=ast.Name(id=src, ctx=ast.Load()), ifs=[], is_async=0)])
+            ok1, why1 = _every_line_map(ctx, fn, head, src)
+            tail = ast.ListComp(elt=e.right.elt, generators=[ast.comprehension(
+                target=e.right.generators[0].target, iter=ast.Name(id=src, ctx=ast.Load()), ifs=e.right.generators[0].ifs, is_async=0)]) \
+                if len(e.right.generators) == 1 and isinstance(e.right.generators[0].iter, ast.Name) and \
+                e.right.generators[0].iter.id == rest else None
+            if tail is None:
+                return False, 'the remaining lines are not taken from the rest of the list'
+            ok2, why2 = _every_line_map(ctx, fn, tail, src)
+            if ok1 and ok2:
+                return True, 'the first line and every remaining line are rendered as bullet prefix + line'
+            return False, why1 if not ok1 else why2
     return False, f'`{ast.unparse(e)[:50]}` is not a per-line map of the whole list'
 
 
